@@ -158,6 +158,12 @@ Decide(s, row, minute) ==
             ELSE s3
   IN Flush(s4, minute)
 
+\* ---- the antecedent of C12, evaluated on the NORMAL side, window by window (a window = one trading candle)
+RestingPx(os) == {os[j].p : j \in {i \in DOMAIN os : os[i].typ # "MARKET"}}                \* prices of resting orders
+FilledPx(lg)  == {lg[j][3] : j \in {i \in DOMAIN lg : lg[i][2] # "MARKET"}}                \* prices of resting fills
+RestingFills(lg) == Len(SelectSeq(lg, LAMBDA f : f[2] # "MARKET"))
+NewFills(before, after) == SubSeq(after, Len(before) + 1, Len(after))
+
 \* Strategy._terminate at the end of the session: an open position is closed with a MARKET order at the current price,
 \* resting entry orders are cancelled
 Terminate(s, minute) ==
